@@ -123,7 +123,7 @@ add("wrap_inflate::w_inflate_format_flags", ["C09", "C13"],
 add("wrap_inflate::w_vec_limit", ["C08", "C01", "C03", "C05"],
     "decompress_to_vec(_zlib)_with_limit over any core behaviour: Ok vector = exactly the produced plaintext and <= limit; errors hand back the decoded prefix, never longer "
     "than the limit; HasMoreOutput only when produced == limit; doubling loop terminates; flags: non-wrapping, zlib iff requested, no HAS_MORE_INPUT",
-    "input 0..=2 bytes, limit 0..=8 (symbolic), both formats", kind="W", timeout=1200, mem_gb=16,
+    "input 0..=1 bytes, limit 0..=4 (symbolic), both formats", kind="W", timeout=1500, mem_gb=24, tier="thorough", heavy=True,
     functions=["inflate::decompress_to_vec_inner", "decompress_to_vec_with_limit", "decompress_to_vec_zlib_with_limit"],
     stubs=["decompress -> decompress_contract_fresh"], assumes=D_ASSUME + ["D8: a fresh decoder offered no input only reports starvation"], stubs_change_behaviour=True)
 add("wrap_inflate::w_slice_iter", ["C03", "C05"],
@@ -165,7 +165,7 @@ add("misc::e_adler_n4_splits", ["C16"],
     "4 symbolic bytes, start value 1, 4 splits", kind="E", tier="thorough", timeout=1800, functions=["shared::update_adler32", "adler2::Adler32::write_slice"])
 add("misc::l_decomp_clone_regs", ["C19"],
     "clone() of an arbitrary decoder equals the original on every scalar register and on any entry of the code-length scratch array",
-    "decoder fully symbolic (all arrays), index universally quantified", kind="L", tier="thorough", timeout=2400, mem_gb=24, heavy=True, functions=["DecompressorOxide::clone"])
+    "decoder fully symbolic (all arrays), index universally quantified", kind="L", tier="quick", timeout=600, mem_gb=16, functions=["DecompressorOxide::clone"])
 add("misc::l_decomp_clone_arrays", ["C19"],
     "clone() copies every entry of the three lookup tables, trees and the three code-size arrays",
     "decoder fully symbolic, five universally quantified indices", kind="L", tier="thorough", timeout=3600, mem_gb=24, heavy=True, functions=["DecompressorOxide::clone"])
@@ -189,7 +189,7 @@ for (hn, cl) in [("u_apply_match_flat", "apply_match (flat buffer) = byte-by-byt
                  ("u_copy_ring", "apply_match / transfer with a 16-byte ring (source wraps, destination does not) = LZ77 copy with ring-window semantics; frame condition")]:
     add("unit::" + hn, ["C03", "C08"], cl,
         "16-byte buffer with symbolic contents, every out_pos, every distance allowed by the call sites, length <= 9; index of the compared byte universally quantified",
-        kind="U", tier="thorough", timeout=2400, mem_gb=16, functions=["inflate::core::apply_match", "inflate::core::transfer"])
+        kind="U", tier="quick" if hn != "u_copy_ring" else "thorough", timeout=1200, mem_gb=16, functions=["inflate::core::apply_match", "inflate::core::transfer"])
 
 # ----------------------------------------------------------------- S tier
 TERMINALS = ["s_done_forever", "s_block_type_unexpected", "s_bad_code_size_sum", "s_bad_dist_or_literal_table_length", "s_bad_total_symbols",
@@ -201,12 +201,28 @@ for i, hn in enumerate(TERMINALS):
         "decoder fully symbolic under the invariant num_bits <= 61, bit_buf < 2^num_bits, check_adler32 a valid Adler value; input 0..=3 bytes; all 2^8 flag sets; 4-byte buffer, any out_pos <= 4, any budget",
         kind="S", tier="quick" if i in (0, 3, 7, 9) else "thorough", timeout=600, functions=["inflate::core::decompress_with_limit (terminal arm, epilogue)"],
         assumes=["representation invariant of reachable decoders: num_bits <= 61, bit_buf < 2^num_bits, running checksum is a valid Adler-32 value"])
-for hn in ["s_bad_param_start", "s_bad_param_block_header", "s_bad_param_raw_memcpy", "s_bad_param_decode_litlen", "s_bad_param_match_copy", "s_bad_param_done", "s_bad_param_failed"]:
+for hn in ["s_bad_param_start_l0", "s_bad_param_start_l3", "s_bad_param_block_header_l5", "s_bad_param_raw_memcpy_l6", "s_bad_param_decode_litlen_l7",
+           "s_bad_param_match_copy_l3", "s_bad_param_match_copy_l8", "s_bad_param_done_l4", "s_bad_param_failed_l1"]:
     add("steps::" + hn, ["C05"],
-        "unusable buffer geometry (ring length not a power of two, or out_pos > length) => BadParam (0,0) with decoder registers and buffer untouched, from the injected automaton state",
-        "slice lengths 0..=8 (enumerated), out_pos and budget arbitrary usize, all 2^8 flag sets, decoder fully symbolic",
-        kind="S", tier="quick" if hn in ("s_bad_param_start", "s_bad_param_match_copy") else "thorough", timeout=900,
+        "unusable buffer geometry (ring length not a power of two, or out_pos > length) => BadParam (0,0) with every decoder register and every buffer byte untouched, from the injected automaton state",
+        "slice length %s (concrete), out_pos and budget arbitrary usize, all 2^8 flag sets, decoder fully symbolic, geometry assumed bad" % hn[-1],
+        kind="S", tier="quick" if hn in ("s_bad_param_start_l3", "s_bad_param_match_copy_l8", "s_bad_param_failed_l1") else "thorough", timeout=900,
         functions=["inflate::core::decompress_with_limit (parameter check)"])
+
+for (hn, tier, desc) in [("w_inflate_c_none_2_2", "quick", "flush None, 2 input bytes, 2 output bytes"), ("w_inflate_c_finish_2_1", "quick", "first-call Finish, 2 input bytes, 1 output byte"),
+                         ("w_inflate_c_sync_0_2", "quick", "flush Sync, empty input, 2 output bytes"), ("w_inflate_c_full_1_1", "quick", "flush Full")]:
+    add("wrap_inflate::" + hn, ["C13", "C09"] if "full" not in hn else ["C13"],
+        "real inflate(), first call, any core behaviour within D1-D7 (" + desc + "): counts <= offered; delivered bytes = next plaintext bytes; StreamEnd <=> core done and all delivered; "
+        "progress; Full => Stream error with nothing changed; format -> decoder flags (zlib parsed iff zlib formats, checksum ignored iff not Zlib, HAS_MORE_INPUT iff not Finish)",
+        "3 data formats (symbolic), sizes/flush fixed as named, core produces <= 2 bytes", kind="W", tier=tier, timeout=1200, mem_gb=20, heavy=True,
+        functions=INFL_FUNCS, stubs=[DSTUB], assumes=D_ASSUME, stubs_change_behaviour=True)
+for (hn, tier, desc) in [("e_comp0_sync_raw_1_1", "quick", "raw, 1 byte + Sync, then 1 byte + Finish"), ("e_comp0_full_zlib_1_1", "quick", "zlib, 1 byte + Full, then 1 byte + Finish"),
+                         ("e_comp0_sync_zlib_0_1", "thorough", "zlib, Sync before any input, then 1 byte + Finish"), ("e_comp0_none_then_finish_raw_2_0", "thorough", "raw, 2 bytes with no flush, then Finish")]:
+    add("e_comp::" + hn, ["C12", "C02", "C09", "C14"],
+        "real compress() at level 0, two calls (" + desc + "): after the flush call (all input consumed, space to spare) the bytes so far decode with an independent stored decoder to "
+        "all input so far; Sync/Full end with 00 00 FF FF on a byte boundary, unwritten_bit_count() = 0; running Adler = Adler-32 of consumed input; the second call completes ONE stream "
+        "(header once, exactly one final block) that decodes to the whole input; counts within offered buffers",
+        "symbolic input bytes, 40-byte output buffer, nothing stubbed", kind="E", tier=tier, timeout=2400, mem_gb=30, heavy=True, functions=COMP_FUNCS)
 
 
 def all_harnesses():
